@@ -10,7 +10,12 @@ ap.add_argument("prop")
 ap.add_argument("--tier", default=common.tier_from_env())
 ap.add_argument("--replay")
 a = ap.parse_args()
-if a.prop not in FAMILY:
+modname = FAMILY.get(a.prop)
+if modname is None:
+    cand = "check_%s" % a.prop.lower()
+    if os.path.exists(os.path.join(os.path.dirname(os.path.abspath(__file__)), cand + ".py")):
+        modname = cand
+if modname is None:
     print("no check for", a.prop)
     sys.exit(2)
 try:
@@ -18,5 +23,5 @@ try:
     gen_kernels.regenerate()
 except ImportError:
     pass
-mod = __import__(FAMILY[a.prop])
+mod = __import__(modname)
 sys.exit(mod.run(a.prop, a.tier, common.seed_from_env(), a.replay))
